@@ -11,6 +11,9 @@ pub fn dispatch(op: &str, req: &Value) -> Value {
         "semver_convert" => semver_convert(req),
         "pep_convert" => pep_convert(req),
         "render" => render(req),
+        "git_vcs" => git_vcs(req),
+        "format_output" => format_output(req),
+        "check" => check_cmd(req),
         "preset_schema" => preset_schema(req),
         "bump" => bump(req),
         "branch_rules" => branch_rules(req),
@@ -185,6 +188,52 @@ fn render(req: &Value) -> Value {
         let rp = PEP440::from_str(&out);
         let rer = rp.as_ref().ok().map(|p| { let z: Zerv = p.clone().into(); let w: PEP440 = z.into(); string_to_cps(&w.to_string()) });
         json!({"out": string_to_cps(&out), "reparse_ok": rp.is_ok(), "rerendered": rer})
+    }
+}
+
+fn git_vcs(req: &Value) -> Value {
+    use zerv::vcs::Vcs;
+    let path = std::path::PathBuf::from(req["path"].as_str().unwrap());
+    let fmt = req["fmt"].as_str().unwrap();
+    let vcs = match zerv::vcs::git::GitVcs::new(&path) {
+        Ok(v) => v,
+        Err(e) => return json!({"ok": false, "err": format!("new: {e}")}),
+    };
+    let d = match vcs.get_vcs_data(fmt) {
+        Ok(d) => d,
+        Err(e) => return json!({"ok": false, "err": e.to_string()}),
+    };
+    let data = json!({"tag_version": d.tag_version, "tag_commit_hash": d.tag_commit_hash, "tag_timestamp": d.tag_timestamp,
+        "commit_hash": d.commit_hash, "commit_hash_prefix": d.commit_hash_prefix, "commit_timestamp": d.commit_timestamp,
+        "current_branch": d.current_branch, "is_dirty": d.is_dirty, "distance": d.distance});
+    match zerv::pipeline::vcs_data_to_zerv_vars(d, fmt) {
+        Ok(v) => json!({"ok": true, "data": data, "vars_ok": true, "vars": {"major": v.major, "minor": v.minor, "patch": v.patch,
+            "distance": v.distance, "dirty": v.dirty, "bumped_branch": v.bumped_branch, "bumped_commit_hash": v.bumped_commit_hash,
+            "last_commit_hash": v.last_commit_hash, "bumped_timestamp": v.bumped_timestamp, "last_timestamp": v.last_timestamp,
+            "last_tag_version": v.last_tag_version}}),
+        Err(e) => json!({"ok": true, "data": data, "vars_ok": false, "vars_err": format!("{e:?}")}),
+    }
+}
+
+fn format_output(req: &Value) -> Value {
+    let sch = &req["schema"];
+    let schema = match ZervSchema::new(comps(&sch[0]), comps(&sch[1]), comps(&sch[2])) {
+        Ok(s) => s,
+        Err(e) => return json!({"error": format!("schema: {e}")}),
+    };
+    let zerv = Zerv { schema, vars: vars_of(&req["vars"]) };
+    let prefix = if req["prefix"].is_null() { None } else { Some(cps_to_string(&req["prefix"])) };
+    match zerv::cli::utils::output_formatter::OutputFormatter::format_output(&zerv, req["fmt"].as_str().unwrap(), prefix.as_deref(), &None) {
+        Ok(s) => json!({"ok": true, "out": string_to_cps(&s)}),
+        Err(e) => json!({"ok": false, "err": e.to_string()}),
+    }
+}
+
+fn check_cmd(req: &Value) -> Value {
+    let args = zerv::cli::check::CheckArgs { version: cps_to_string(&req["version"]), format: req["fmt"].as_str().map(|s| s.to_string()) };
+    match zerv::cli::check::run_check_command(args) {
+        Ok(s) => json!({"ok": true, "out": string_to_cps(&s)}),
+        Err(e) => json!({"ok": false, "err": e.to_string()}),
     }
 }
 
